@@ -176,6 +176,27 @@ pub fn run(args: &[String]) -> i32 {
                 ("w", "write") | ("w", "alloc") | ("f", "rotate") | ("r", "rotate") | ("f", "collect") | ("c", "choose") | ("c2", "choose") | ("k", "clear") | ("d", "droprange")
             );
             let mut absent = false;
+            if starts && *inside.get(&p).unwrap_or(&false) {
+                // the model starts a new operation of a process whose previous one is, in the
+                // real tree, still parked (the code took steps the model does not have): let it
+                // finish first; the recorded state shows what that did
+                let mut guard = 0;
+                while *inside.get(&p).unwrap_or(&false) && guard < 8 {
+                    guard += 1;
+                    let _ = cont[&p].send(());
+                    match ev_rx.recv_timeout(Duration::from_secs(20)) {
+                        Ok((who, what)) if who == p && what.starts_with("done:") => {
+                            inside.insert(p.clone(), false);
+                        }
+                        Ok(_) => {}
+                        Err(_) => break,
+                    }
+                }
+                let sx = sess.lock().expect("lock");
+                let rec = json!({"op": {"op": "cstep", "p": p, "step": "extra", "arg": 0, "at": "unexpected"},
+                    "ret": "ok", "rk": "ok", "ro": false, "info": {"s0": 0}, "st": sx.project(), "obs": sx.observe()});
+                writeln!(wr, "{rec}").expect("write");
+            }
             if p == "w" && step == "write" && stp["probe"].as_bool().unwrap_or(false) {
                 // Atomicity probe of the writer's critical section (append_entry holds the version
                 // read lock across the memtable insert): park the writer inside the insert and
@@ -283,7 +304,9 @@ pub fn run(args: &[String]) -> i32 {
                             for run in level.as_array().cloned().unwrap_or_default() {
                                 for t in run.as_array().cloned().unwrap_or_default() {
                                     if let Some(id) = t.as_u64() {
-                                        if !hidden.contains(&id) {
+                                        // c leaves hidden tables alone; c2 asks for every L0
+                                        // table and relies on the worker to decline
+                                        if p == "c2" || !hidden.contains(&id) {
                                             ids.push(id);
                                         }
                                     }
